@@ -38,6 +38,7 @@ def main():
     ap.add_argument("--jobs", default="8")
     ap.add_argument("--patch", default="patch.diff")
     ap.add_argument("--demo", default="demo.py")
+    ap.add_argument("--tests_str", default="", help="pytest invocations separated by ';' (shlex syntax), e.g. \"tests/test_run.py -k 'soc or kp' ; tests/test_tetra.py\"")
     ap.add_argument("--reset", action="store_true", help="forget the verdicts of earlier evaluations")
     a = ap.parse_args()
     sd = os.path.join(ROOT, "seeded", a.name)
@@ -73,7 +74,9 @@ def main():
                 print(f"demo on {tag}: rc={rc} ({dt:.0f}s)")
             ev["demo"] = res
             ev["demo_ok"] = (res["clean"]["rc"] == 0 and res["mutated"]["rc"] != 0)
-        if a.tests:
+        import shlex
+        invocations = ([a.tests] if a.tests else []) + [shlex.split(x) for x in a.tests_str.split(";") if x.strip()]
+        if invocations:
             wt = os.path.join(base, "wt")
             rc, out, _ = run(["git", "-C", "/repo", "worktree", "add", "--detach", wt, "HEAD"])
             try:
@@ -81,11 +84,14 @@ def main():
                 rc, out, _ = run(["git", "-C", wt, "apply", patch])
                 assert rc == 0, out
                 env = dict(os.environ, OMP_NUM_THREADS="2", OPENBLAS_NUM_THREADS="2")
-                rc, out, dt = run(["/venv/bin/python", "-m", "pytest", "-q", "-p", "no:cacheprovider", "--serial", "--timeout=1800"] + a.tests,
-                                  cwd=wt, env=env, timeout=6 * 3600)
-                lines = [l for l in out.splitlines() if l.strip()]
-                ev.setdefault("tests", {})[" ".join(a.tests)] = {"rc": rc, "seconds": round(dt), "summary": lines[-1] if lines else "", "failed": [l for l in lines if l.startswith("FAILED") or l.startswith("ERROR")][:20]}
-                print("tests:", rc, lines[-1] if lines else "")
+                # `import wannierberri.utils.mmn2uHu` first: several fixtures use wannierberri.utils without importing it
+                code = ("import sys, pytest, wannierberri.utils.mmn2uHu; sys.exit(pytest.main(['-q', '-p', 'no:cacheprovider', "
+                        "'--serial', '--timeout=1800'] + sys.argv[1:]))")
+                for inv in invocations:
+                    rc, out, dt = run(["/venv/bin/python", "-c", code] + inv, cwd=wt, env=env, timeout=6 * 3600)
+                    lines = [l for l in out.splitlines() if l.strip()]
+                    ev.setdefault("tests", {})[" ".join(inv)] = {"rc": rc, "seconds": round(dt), "summary": lines[-1] if lines else "", "failed": [l for l in lines if l.startswith("FAILED") or l.startswith("ERROR")][:20]}
+                    print("tests:", " ".join(inv), "->", rc, lines[-1] if lines else "")
             finally:
                 run(["git", "-C", "/repo", "worktree", "remove", "--force", wt])
         for pid in a.checks:
